@@ -630,6 +630,16 @@ def r23model(ctx: Ctx) -> RuleReport:
         if not (isinstance(ret, ast.Tuple) and len(ret.elts) == 3):
             rep.undecided(key, inv.loc(r), norm(ret))
             continue
+        conv = None
+        for e_ in (ret.elts[0], ret.elts[2]):
+            d_ = single_def(ctx, inv, e_) if isinstance(e_, ast.Name) else e_
+            if isinstance(d_, ast.Call) and isinstance(d_.func, ast.Name) and d_.func.id in ('str', 'repr', 'int', 'float', 'bool', 'format') and len(d_.args) == 1 \
+                    and slot(d_.args[0]) is not None:
+                conv = d_
+        if conv is not None:
+            rep.violation(key, inv.loc(r), f'the swapped triple is built with `{norm(conv)}`: a conversion, not the value itself. A target that is not a string - the number 3 in '
+                          f'("a", ":quant", 3), or None - comes back as another object ("3", "None"), so invert(invert(t)) != t and deinvert no longer equals invert on inverted triples')
+            continue
         s0, s2 = slot(ret.elts[0]), slot(ret.elts[2])
         mid = single_def(ctx, inv, ret.elts[1])
         mid_ok = isinstance(mid, ast.Call) and norm(mid.func) == 'self.invert_role' and len(mid.args) == 1 and slot(mid.args[0]) == 1
